@@ -513,6 +513,19 @@ def _body(*args, **kwargs):
     return ctl.body(args, kwargs)
 
 
+def reconf_groups(cfg):
+    """Reconfiguration addressed through tags: the named nodes that get identical new values form a group that carries a
+    tag, and the configuration names the tag instead of the node ids ({tag: [node indices]}; only groups of two or more)."""
+    rc = cfg.get("reconf")
+    if not rc or not rc.get("bytag"):
+        return {}
+    by = {}
+    for k in range(cfg["n"]):
+        if rc["named"][k]:
+            by.setdefault((rc["prio"][k], rc["seq"][k]), []).append(k + 1)
+    return {f"g{j}": members for j, (_, members) in enumerate(sorted(by.items())) if len(members) >= 2}
+
+
 def build_dag(cfg):
     """Build the real DAG for a configuration. Returns (dag, ids) with ids[k-1] the id of node k.
 
@@ -527,6 +540,7 @@ def build_dag(cfg):
     debug = cfg.get("debug") or [False] * n
     act = cfg.get("act") or [None] * n
     xs = {}
+    groups = reconf_groups(cfg)
     for k in range(1, n + 1):
         f = fn[k - 1]
         if f in xs:
@@ -546,6 +560,7 @@ def build_dag(cfg):
             resource=RES[cfg["res"][k - 1]],
             setup=setup[k - 1],
             debug=debug[k - 1],
+            tag=next((t for t, members in groups.items() if k in members), None),
         )
     params = []
     lines = []
@@ -625,11 +640,18 @@ def run_history(cfg, script=(), max_subset=None, max_bg=None):
         # priorities / sequentiality reconfigured after the build (dict, JSON or YAML): the documented values change with it
         import json as _json
         import tempfile
-        conf = {"nodes": {ids[k]: {"priority": rc["prio"][k], "is_sequential": rc["seq"][k]} for k in range(cfg["n"]) if rc["named"][k]}}
+        groups = reconf_groups(cfg)
+        grouped = {k for members in groups.values() for k in members}
+        conf = {"nodes": {ids[k]: {"priority": rc["prio"][k], "is_sequential": rc["seq"][k]} for k in range(cfg["n"])
+                          if rc["named"][k] and k + 1 not in grouped}}
+        for t, members in groups.items():       # one entry for all the nodes that carry the tag
+            conf["nodes"][t] = {"priority": rc["prio"][members[0] - 1], "is_sequential": rc["seq"][members[0] - 1]}
         if rc.get("mc"):
             conf["max_concurrency"] = rc["mc"]
         if rc["via"] == "dict":
             d.config_from_dict(conf)
+            if rc.get("twice"):
+                d.config_from_dict(conf)        # applying the same configuration object again changes nothing
         else:
             with tempfile.NamedTemporaryFile("w", suffix="." + rc["via"], delete=False) as f:
                 if rc["via"] == "json":
